@@ -505,3 +505,6 @@ def run(ctx, rep):
     n = c11.check_shared_flags(ctx, RuleProxy(rep, 'C06.H', 'flags::'), only=lambda c: c is tree_base or c.has_base(tree_base.qualname))
     if n < 4:
         rep.incomplete('C06.H', 'flags::*', '', f"only {n} flag-clearing sites found in the time-tree models")
+    # tips sit at *their* sampling time: sampling dates are stored in Taxa order, so a leaf's index must be the position of its taxon in that list
+    from props import c02
+    c02.check_leaf_index(ctx, rep, 'C06.F', 'tips::')
